@@ -15,6 +15,8 @@ one-constant change of the model (= the proposed repair) makes them true:
 -/
 import AskarModel.Model.KeyStore
 import AskarModel.Lemmas.KeyStore
+import AskarModel.Model.Seed
+import AskarModel.Lemmas.Seed
 
 namespace Askar.KeyStore
 open Askar.Wql Askar.Store
@@ -186,3 +188,180 @@ example : ∃ db', insertKey Lemmas.Toy.cbor Lemmas.Toy.keyOps {} 0 ⟨1, 0⟩ "
 example : isSymmetric "a128gcm" = true ∧ isSymmetric "ed25519" = false := by decide
 
 end Askar.KeyStore
+
+
+/-! ## seeded keys (`LocalKey::from_seed`; gap row 20 of COVERAGE.md)
+
+Model `Model/Seed.lean`, lemmas `Lemmas/Seed.lean`.  Every statement holds for EVERY `P : Seed.Prims` (ChaCha20 keystream, SHA-256,
+HKDF, the curves' scalar range check are parameters), every algorithm, every seed of every length and every method string.
+The driver instantiates `P` with the executable specifications and predicts the secret bytes of every seeded key of the 16
+algorithms bit for bit (kinds `c13:seed`, `c11:seed`).
+
+OBSERVATION (outside the property statements — neither C11 nor C13 states that distinct seeds give distinct keys; determinism,
+which they do state, holds): `SeedsDistinguished` ("two different accepted seeds never reach the generator as the same input") does
+not hold of the model of the current tree.  `RandomDet::new` keeps the first 32 bytes and zero-pads: bytes beyond 32 are ignored, and
+a short seed is its own zero-extension.  These are facts about the model, recorded as theorems: the statement holds for the variant
+`strict = true` (a `RandomDet` seed must be 32 bytes — a SUGGESTION, `proposals/C11-seed-length.diff`, not a defect against C11 / C13),
+is refuted with a witness for the current one, and `seeds_status` says which of the two the constant `seedStrictCurrent` (= `false`,
+today's source; no extracted flag) selects.  The harness reports the collisions as diagnostics (`obs:from_seed:seed-collision:*`),
+not as oracle failures. -/
+
+namespace Askar.C11.Seeded
+open Askar.Sign Askar.Seed
+
+/-- a method string other than absent / empty / `bls_keygen` is refused with `Unsupported`, before the seed or the algorithm is looked at -/
+theorem from_seed_unknown_method (P : Prims) (strict : Bool) (alg : KeyAlg) (seed : Bytes) {method : Option String}
+    (h1 : method ≠ none) (h2 : method ≠ some "") (h3 : method ≠ some "bls_keygen") :
+    fromSeed P strict alg seed method = .err .unsupported := fromSeed_unknown P strict alg seed h1 h2 h3
+
+/-- `bls_keygen` with a seed shorter than 32 bytes: `Input` (crypto `Usage`), for every algorithm … -/
+theorem from_seed_bls_short_seed (P : Prims) (strict : Bool) (alg : KeyAlg) {seed : Bytes} (h : seed.length < 32) :
+    fromSeed P strict alg seed (some "bls_keygen") = .err .input := fromSeed_bls_short P strict alg h
+
+/-- … and from 32 bytes on the WHOLE seed is the generator's input key material (nothing is cut, nothing is padded) -/
+theorem from_seed_bls_whole_seed (P : Prims) (strict : Bool) (alg : KeyAlg) {seed : Bytes} (h : 32 ≤ seed.length) :
+    fromSeed P strict alg seed (some "bls_keygen") = (generate P alg (.bls seed none)).mapErr CErr.toKind := fromSeed_bls P strict alg h
+
+/-- the empty method string is the default method -/
+theorem from_seed_empty_method (P : Prims) (strict : Bool) (alg : KeyAlg) (seed : Bytes) :
+    fromSeed P strict alg seed (some "") = fromSeed P strict alg seed none := fromSeed_empty P strict alg seed
+
+/-- the only errors of `from_seed`, and exactly when: `Unsupported` for an unknown method; `Input` for a short `bls_keygen` seed
+    (and, in the suggested `strict` variant, for a default-method seed that is not 32 bytes).  Key generation itself never fails. -/
+theorem from_seed_errors {P : Prims} {strict : Bool} {alg : KeyAlg} {seed : Bytes} {method : Option String} {e : ErrKind}
+    (h : fromSeed P strict alg seed method = .err e) :
+    (e = .unsupported ∧ method ≠ none ∧ method ≠ some "" ∧ method ≠ some "bls_keygen") ∨
+    (e = .input ∧ method = some "bls_keygen" ∧ seed.length < 32) ∨
+    (e = .input ∧ (method = none ∨ method = some "") ∧ strict = true ∧ seed.length ≠ 32) := by
+  have hr := fromSeed_err_elim h
+  rcases method_cases method with (hb | hn | he) | ⟨h1, h2, h3⟩
+  · subst hb
+    rw [rngOf_bls] at hr
+    split at hr
+    · cases hr; exact .inr (.inl ⟨rfl, rfl, by assumption⟩)
+    · cases hr
+  · subst hn
+    rw [rngOf_none] at hr
+    split at hr
+    · rename_i hc; cases hr; exact .inr (.inr ⟨rfl, .inl rfl, hc.1, hc.2⟩)
+    · cases hr
+  · subst he
+    rw [rngOf_empty, rngOf_none] at hr
+    split at hr
+    · rename_i hc; cases hr; exact .inr (.inr ⟨rfl, .inr rfl, hc.1, hc.2⟩)
+    · cases hr
+  · rw [rngOf_unknown strict seed h1 h2 h3] at hr
+    cases hr
+    exact .inl ⟨rfl, h1, h2, h3⟩
+
+/-- a seeded key has the width of its algorithm (16 / 32 / 48 / 64 bytes), whatever the length of the seed; for the three curves
+    with a rejection loop it is a scalar their crate accepts -/
+theorem from_seed_key_width {P : Prims} {strict : Bool} {alg : KeyAlg} {seed : Bytes} {method : Option String} {sk : Bytes}
+    (h : fromSeed P strict alg seed method = .ok sk) :
+    sk.length = keyLen alg ∧ (isEcLoop alg = true → P.validScalar alg sk = true) := by
+  obtain ⟨rng, _, hg⟩ := fromSeed_ok_elim h
+  refine ⟨generate_ok_length hg, fun hec => ?_⟩
+  unfold generate at hg
+  rw [if_pos hec] at hg
+  exact (ecLoop_ok hg).1
+
+/-- default method on the current tree, the 13 algorithms without a rejection loop: EVERY seed (0, 1, 31, 32, 33, 64, … bytes) gives
+    a key, and for the ten that draw their key directly it is the first `keyLen` bytes of the keystream under the padded seed -/
+theorem from_seed_default_total (P : Prims) {alg : KeyAlg} (h : isEcLoop alg = false) (seed : Bytes) :
+    (∃ sk, fromSeed P false alg seed none = .ok sk ∧ sk.length = keyLen alg) ∧
+    (isBls alg = false → fromSeed P false alg seed none = .ok (P.stream (detSeed seed) 0 (keyLen alg))) := by
+  rw [fromSeed_none_current]
+  constructor
+  · obtain ⟨sk, hsk, hl⟩ := generate_total (P := P) h (.det (detSeed seed) 0)
+    exact ⟨sk, by rw [hsk]; rfl, hl⟩
+  · intro hb
+    unfold generate
+    simp [h, hb, Prims.read, Res.mapErr]
+
+/-- the three curves: the first 32 / 48 keystream bytes are the key whenever they are a valid scalar (all but ≈ 2⁻³² of the seeds
+    for P-256, fewer for the others); otherwise the next 32 / 48 bytes are tried, and so on -/
+theorem from_seed_default_ec (P : Prims) {alg : KeyAlg} (h : isEcLoop alg = true) (seed : Bytes)
+    (hv : P.validScalar alg (P.stream (detSeed seed) 0 (keyLen alg)) = true) :
+    fromSeed P false alg seed none = .ok (P.stream (detSeed seed) 0 (keyLen alg)) := by
+  rw [fromSeed_none_current]
+  unfold generate
+  rw [if_pos h]
+  have := ecLoop_first (P := P) (alg := alg) (rng := .det (detSeed seed) 0) (ecFuel - 1) (by simpa [Prims.read] using hv)
+  have hf : ecFuel - 1 + 1 = ecFuel := by decide
+  rw [hf] at this
+  rw [this]
+  simp [Prims.read, Res.mapErr]
+
+/-- determinism: the key is a function of (algorithm, seed, method) — and, with the default method on the current tree, of the
+    seed's first 32 bytes zero-padded ONLY -/
+theorem from_seed_depends_on_padded_prefix (P : Prims) (alg : KeyAlg) {s s' : Bytes} (h : detSeed s = detSeed s') :
+    fromSeed P false alg s none = fromSeed P false alg s' none := by
+  rw [fromSeed_none_current, fromSeed_none_current, h]
+
+/-- observation (outside the property statements), for every algorithm on the current tree: bytes beyond the 32nd are ignored; a seed shorter than 32 bytes and the
+    same seed followed by a zero byte give the same key -/
+theorem from_seed_collisions_current (P : Prims) (alg : KeyAlg) (s : Bytes) :
+    (32 ≤ s.length → ∀ t, fromSeed P false alg (s ++ t) none = fromSeed P false alg s none) ∧
+    (s.length < 32 → fromSeed P false alg (s ++ [0]) none = fromSeed P false alg s none) :=
+  ⟨fun h t => from_seed_depends_on_padded_prefix P alg (detSeed_append_of_ge h t),
+   fun h => from_seed_depends_on_padded_prefix P alg (detSeed_zero_ext h)⟩
+
+/-- NOT part of C11 / C13 (an observation about the model): "different seeds are different inputs to key generation" — two seeds that `from_seed` accepts under the same
+    method and hands to the generator as the SAME state are the same seed.  (That different generator inputs give different keys is
+    the external KDF's business — and for 16-byte keys false by counting; this is askar's own part.) -/
+def SeedsDistinguished (strict : Bool) : Prop :=
+  ∀ (method : Option String) (s s' : Bytes) (r : Rng), rngOf strict s method = .ok r → rngOf strict s' method = .ok r → s = s'
+
+/-- holds for the `strict` variant (the suggestion: a default-method seed must be exactly 32 bytes) … -/
+theorem seeds_distinguished_repaired : SeedsDistinguished true := by
+  intro method s s' r h h'
+  have det : ∀ {s s' : Bytes} {r : Rng}, rngOf true s none = .ok r → rngOf true s' none = .ok r → s = s' := by
+    intro s s' r h h'
+    obtain ⟨hr, hl⟩ := rngOf_none_ok h
+    obtain ⟨hr', hl'⟩ := rngOf_none_ok h'
+    rw [hr, detSeed_of_length (hl rfl), detSeed_of_length (hl' rfl)] at hr'
+    cases hr'; rfl
+  rcases method_cases method with (hb | hn | he) | ⟨h1, h2, h3⟩
+  · subst hb
+    have e := (rngOf_bls_ok h).1
+    rw [(rngOf_bls_ok h').1] at e
+    cases e; rfl
+  · subst hn; exact det h h'
+  · subst he
+    rw [rngOf_empty] at h h'
+    exact det h h'
+  · rw [rngOf_unknown true s h1 h2 h3] at h
+    cases h
+
+/-- … does not hold for the current one (observation, not a property violation).  Witness: the empty seed and the one-byte seed `00` (equally: any 32-byte seed and the same seed
+    with one more byte) -/
+theorem seeds_identified_current : ¬ SeedsDistinguished false := by
+  intro h
+  have := h none [] [0] (.det (List.replicate 32 0) 0) (by decide) (by decide)
+  cases this
+
+/-- `bls_keygen` distinguishes seeds in both variants -/
+theorem bls_seeds_distinguished (strict : Bool) {s s' : Bytes} {r : Rng}
+    (h : rngOf strict s (some "bls_keygen") = .ok r) (h' : rngOf strict s' (some "bls_keygen") = .ok r) : s = s' := by
+  have e := (rngOf_bls_ok h).1
+  rw [(rngOf_bls_ok h').1] at e
+  cases e; rfl
+
+/-- which of the two holds of the model of the current tree is decided by the constant `seedStrictCurrent` (= `false`, today's source) -/
+theorem seeds_status :
+    (seedStrictCurrent = true ∧ SeedsDistinguished seedStrictCurrent) ∨ (seedStrictCurrent = false ∧ ¬ SeedsDistinguished seedStrictCurrent) := by
+  cases hg : seedStrictCurrent with
+  | true => exact .inl ⟨rfl, seeds_distinguished_repaired⟩
+  | false => exact .inr ⟨rfl, seeds_identified_current⟩
+
+/-! non-vacuity: the executable primitives are an instance; concrete outcomes of each kind -/
+example : ∃ sk, fromSeed Std.prims false .a128Gcm [] none = .ok sk ∧ sk.length = 16 :=
+  let ⟨sk, h, hl⟩ := (from_seed_default_total Std.prims (alg := .a128Gcm) rfl []).1; ⟨sk, h, hl⟩
+example : fromSeed Std.prims false .ed25519 [1, 2, 3] (some "bls_keygen") = .err .input := from_seed_bls_short_seed _ _ _ (by decide)
+example : fromSeed Std.prims false .blsG1 [] (some "BLS_KEYGEN") = .err .unsupported :=
+  from_seed_unknown_method _ _ _ _ (by decide) (by decide) (by decide)
+example : rngOf true (List.replicate 32 7) none = .ok (.det (List.replicate 32 7) 0) := by decide
+example : rngOf true (List.replicate 33 7) none = .err .input := by decide
+example : rngOf false (List.replicate 33 7) none = .ok (.det (List.replicate 32 7) 0) := by decide
+
+end Askar.C11.Seeded
